@@ -1,49 +1,92 @@
 (* C16 — At most one publisher per path; replaced publishers are cut off.
-   Model: Model/PathSM.v (the path event loop as a step function). Only statements here. *)
+   Model: Model/PathSM.v (the path event loop as a step function), alwaysAvailable paths included.
+   Only statements here. *)
 From Coq Require Import List ZArith.
 Require Import MTX.Lib.Trace MTX.Model.PathSM MTX.Proofs.PathSM MTX.Proofs.PathSM_Thms MTX.Proofs.PathSM_Teardown.
 Import ListNotations.
 Local Open Scope Z_scope.
 
-(* after every history: a static-source path never has a publisher; on a publisher path a stream exists
-   iff a (single: `option`) publisher is attached *)
+(* after every history: a static-source path never has a publisher; on a publisher path that is not
+   alwaysAvailable a stream exists iff a (single: `option`) publisher is attached; an alwaysAvailable path
+   has its stream from creation until it closes *)
 Theorem C16_one_source : forall cf ops,
   conf_ok cf = true ->
   let s := final step (init_state cf) ops in
   (c_static cf = true -> s_source s = None) /\
-  (c_static cf = false -> (s_source s = None <-> s_stream s = None)).
+  (c_static cf = false -> c_aa cf = false -> (s_source s = None <-> s_stream s = None)) /\
+  (c_aa cf = true -> s_closed s = false -> s_stream s <> None).
 Proof. exact (c16_one_source true). Qed.
 Print Assumptions C16_one_source.
 
+(* after every history, the stream's current sub-stream (the only one whose writes reach readers) is the one
+   of the attached publisher; without publisher: the ready static source's, else the offline one of an
+   alwaysAvailable stream; none without stream.  So the sub-stream of a replaced or removed publisher is
+   never the current one once the step that replaced / removed it is over. *)
+Theorem C16_current_substream : forall cf ops,
+  conf_ok cf = true ->
+  let s := final step (init_state cf) ops in s_sub s = expected_sub s.
+Proof. exact (c16_current_substream true). Qed.
+Print Assumptions C16_current_substream.
+
 (* overridePublisher = false: a second publisher is answered "already publishing" and nothing changes *)
-Theorem C16_reject_when_busy : forall s q p old,
+Theorem C16_reject_when_busy : forall s q p ok old,
   s_closed s = false -> c_static (s_conf s) = false -> c_override (s_conf s) = false ->
   s_source s = Some old ->
-  step s (AddPublisher q p) = (s, [EAnswer q (AErr E_BUSY)]).
+  step s (AddPublisher q p ok) = (s, [EAnswer q (AErr E_BUSY)]).
 Proof. exact (c16_reject_when_busy true). Qed.
 Print Assumptions C16_reject_when_busy.
 
-(* overridePublisher = true: in the events of the step, the old publisher is closed, the old stream is torn
-   down (EPathNotReady) and every attached reader is closed BEFORE the new stream (a fresh generation g)
-   is created, and the new publisher is answered with that new stream afterwards; it becomes the source *)
-Theorem C16_override_closes_first : forall s q p old,
-  s_closed s = false -> c_static (s_conf s) = false -> c_override (s_conf s) = true -> s_source s = Some old ->
-  let evs := snd (step s (AddPublisher q p)) in
-  let s' := fst (step s (AddPublisher q p)) in
+(* overridePublisher = true, not alwaysAvailable: in the events of the step, the old publisher is closed, the old
+   stream is torn down (EPathNotReady) and every attached reader is closed BEFORE the new stream (a fresh
+   generation g) is created, and the new publisher is answered with that new stream afterwards; it becomes the
+   source and its sub-stream the current one *)
+Theorem C16_override_closes_first : forall s q p ok old,
+  s_closed s = false -> c_static (s_conf s) = false -> c_aa (s_conf s) = false ->
+  c_override (s_conf s) = true -> s_source s = Some old ->
+  let evs := snd (step s (AddPublisher q p ok)) in
+  let s' := fst (step s (AddPublisher q p ok)) in
   let g := s_nextgen s in
   Before (EPubClosed old) (EPathReady g) evs /\
   Before EPathNotReady (EPathReady g) evs /\
   (forall r, In r (s_readers s) -> Before (EReaderClosed r) (EPathReady g) evs) /\
   Before (EPathReady g) (EAnswer q (AStream g)) evs /\
-  s_source s' = Some p /\ s_stream s' = Some g.
+  s_source s' = Some p /\ s_stream s' = Some g /\ s_sub s' = SPub p.
 Proof. exact (c16_override_closes_first true). Qed.
 Print Assumptions C16_override_closes_first.
 
+(* overridePublisher = true, alwaysAvailable: the old publisher is closed, the stream and its readers stay, and
+   afterwards the current sub-stream is the new publisher's or - when SubStream.Initialize refuses the new
+   publisher's tracks (ok = false) - the offline one, no publisher being attached: never the old one's *)
+Theorem C16_override_always_available : forall s q p ok old g,
+  s_closed s = false -> c_static (s_conf s) = false -> c_aa (s_conf s) = true ->
+  c_override (s_conf s) = true -> s_source s = Some old -> s_stream s = Some g ->
+  let evs := snd (step s (AddPublisher q p ok)) in
+  let s' := fst (step s (AddPublisher q p ok)) in
+  In (EPubClosed old) evs /\
+  s_stream s' = Some g /\
+  (forall r, In r (s_readers s) -> In r (s_readers s')) /\
+  if ok then s_source s' = Some p /\ s_sub s' = SPub p /\ In (EAnswer q (AStream g)) evs
+  else s_source s' = None /\ s_sub s' = SOffline /\ In (EAnswer q (AErr E_INCOMPAT)) evs.
+Proof. exact (c16_override_aa true). Qed.
+Print Assumptions C16_override_always_available.
+
 (* non-vacuity: a replaced publisher with two readers *)
 Example C16_example :
-  let cf := mkConf false false true 0 false false false false false false in
-  snd (run cf [AddPublisher 1 1; AddReader 2 1; AddReader 3 2; AddPublisher 4 2]) =
+  let cf := mkConf false false true 0 false false false false false false false in
+  snd (run cf [AddPublisher 1 1 true; AddReader 2 1; AddReader 3 2; AddPublisher 4 2 true]) =
   [EOpen HAvail; EOpen HOnline; EPathReady 0; EAnswer 1 (AStream 0); EAnswer 2 (AStream 0); EAnswer 3 (AStream 0);
    EPubClosed 1; EPathNotReady; EClose HOnline; EReaderClosed 1; EReaderClosed 2; EClose HAvail;
    EOpen HAvail; EOpen HOnline; EPathReady 1; EAnswer 4 (AStream 1)].
 Proof. vm_compute. reflexivity. Qed.
+
+(* non-vacuity, alwaysAvailable: publisher 1 is replaced by a publisher whose tracks are refused; the reader
+   stays, nobody is attached, the offline sub-stream is the current one; then publisher 3 attaches *)
+Example C16_example_always_available :
+  let cf := mkConf false false true 0 false false false false false false true in
+  let r := run cf [AddPublisher 1 1 true; AddReader 2 1; AddPublisher 3 2 false] in
+  let r' := run cf [AddPublisher 1 1 true; AddReader 2 1; AddPublisher 3 2 false; AddPublisher 4 3 true] in
+  snd r = [EOpen HAvail; EPathReady 0; EOpen HOnline; EAnswer 1 (AStream 0); EAnswer 2 (AStream 0);
+           EPubClosed 1; EClose HOnline; EAnswer 3 (AErr E_INCOMPAT)] /\
+  s_source (fst r) = None /\ s_sub (fst r) = SOffline /\ s_readers (fst r) = [1] /\
+  s_source (fst r') = Some 3 /\ s_sub (fst r') = SPub 3.
+Proof. vm_compute. repeat split; reflexivity. Qed.
